@@ -488,7 +488,20 @@ def body(ck: common.Check):
     algos = [dict(type="sade", generations=2, population_size=8), dict(type="sga", generations=2, population_size=6),
              dict(type="nlopt", generations=1, population_size=5, maxeval=8)]
     ncal = 9 if quick else 36
-    for i in range(ncal):
+    # corpus (always first): the recorded finding — StopIteration while the initial population is evaluated
+    corpus_cal = {"algo": algos[0], "islands": 1, "nth": 3, "exc": "StopIteration"}
+    for i in range(-1, ncal):
+        if i == -1:
+            groups = gen_pipeline(rng, small=True)
+            c = gen_case(rng, "calibration", groups=groups, steps=1, no_fault=False, fault_pos=(0, 0, 0))
+            c.update({"algo": corpus_cal["algo"], "islands": 1, "pygmo_seed": 4242})
+            c["fault"].update({"nth": corpus_cal["nth"], "exc": "StopIteration", "msg": "line one\nline two", "note": None})
+            impl = run_impl(c)
+            ck.case(c, nontrivial=True, stream="corpus")
+            pv = property_predicate(c, impl)
+            if pv:
+                ck.violation(pv[0], pv[1], {"case": c, "impl": impl})
+            continue
         algo = algos[i % 3]
         groups = gen_pipeline(rng, small=True)
         islands = 1 + (i % 2)
